@@ -70,9 +70,18 @@ class Check(PropertyCheck):
                     lines.append(f"q earliest_start {rng.randrange(total)}")
                 elif r < 0.94 and scheduled_ids:
                     lines.append(f"q {rng.choice(['is_ongoing', 'remaining_duration'])} {rng.choice(scheduled_ids)}")
-                elif r < 0.97:
+                elif r < 0.955:
                     k = rng.randint(0, 3)
                     lines.append("q min_start " + " ".join(str(rng.randrange(total)) for _ in range(k)))
+                elif r < 0.985:
+                    # other readers of the dispatcher between two queries: a dispatching rule asked for its choice, a
+                    # filter applied by hand to the ready operations
+                    tb = "tb:" + ",".join(rng.choice(["spt", "fcfs", "mor"]) for _ in range(rng.randint(1, 3)))
+                    ready = [base[jj] + pp for jj, pp in tr.ready()]
+                    opts = [f"rule {tb} {rng.randint(0, 9)}", "rule " + rng.choice(["spt", "fcfs", "mwkr", "mor"]) + " 0"]
+                    if ready:
+                        opts.append("flt " + rng.choice(gen.FILTER_NAMES) + " ; " + " ".join(map(str, ready)))
+                    lines.append(rng.choice(opts))
                 else:
                     lines.append("q unsched_observer")
                 nq += 1
@@ -101,8 +110,8 @@ class Check(PropertyCheck):
         return Scenario(lines, meta)
 
     def make_impl(self, scenario):
-        from impl_ext import ImplExt
-        return ImplExt(scenario.meta.get("filter_style", "callable"))
+        from impl_ext import ImplRules
+        return ImplRules(scenario.meta.get("filter_style", "callable"))
 
     def nontrivial(self, scenario, outs):
         return scenario.meta.get("accepted", 0) >= 3 and scenario.meta.get("queries", 0) >= 6
